@@ -1,6 +1,6 @@
 (* C13 - No reply can make a query reserve unbounded memory.
    Rows proved so far: valve::query. *)
-From GD Require Import Base.Prelude Model.Strings Model.Buffer Model.Net Model.Valve Proofs.Msafe Proofs.ValveTotal.
+From GD Require Import Base.Prelude Model.Strings Model.Buffer Model.Net Model.Valve Model.Quake Proofs.Msafe Proofs.ValveTotal Proofs.QuakeTotal.
 
 (* every reservation whose size comes from a field of a reply is at most 1 MiB
    (<= the 16 MiB allowance), for every script *)
@@ -9,6 +9,12 @@ Theorem c13_valve_reserves_bounded : forall bz, (forall p s, safe (bz p s)) ->
   Forall (fun k => k <= max_decompressed_size) (reserves (snd (Valve.query bz port e g t (net_init u tc sf)))).
 Proof. exact valve_reserves_bounded. Qed.
 Print Assumptions c13_valve_reserves_bounded.
+
+(* Quake: no reservation is driven by a field of the reply at all *)
+Theorem c13_quake_no_reserve : forall port v t u tc sf, settings_ok t ->
+  reserves (snd (Quake.client_query port v t (net_init u tc sf))) = [].
+Proof. exact quake_no_reserve. Qed.
+Print Assumptions c13_quake_no_reserve.
 
 Example c13_ex_bound : max_decompressed_size = 1048576 /\ max_decompressed_size <= 16 * 1048576.
 Proof. split; [reflexivity|]. unfold max_decompressed_size. discriminate. Qed.
